@@ -96,4 +96,100 @@ theorem matchLit_app (lit inp : List Nat) : matchLit lit (lit ++ inp) = some inp
 
 theorem slash_not_num : isNumRune 47 = false := by decide
 
+/-! ## `parseColorReply` (round 4) -/
+
+open VaxisModel.Model.Input in
+theorem splitOn_ne (sep : Nat) (s : List Nat) : ∃ hd tl, splitOn sep s = hd :: tl := by
+  induction s with
+  | nil => exact ⟨[], [], rfl⟩
+  | cons a t ih =>
+    obtain ⟨hd, tl, h⟩ := ih
+    simp only [splitOn, h]
+    split <;> simp
+
+open VaxisModel.Model.Input in
+/-- `strings.Split` of a string without the separator is the string itself. -/
+theorem splitOn_nosep (sep : Nat) (l : List Nat) (h : ∀ x ∈ l, x ≠ sep) : splitOn sep l = [l] := by
+  induction l with
+  | nil => rfl
+  | cons a t ih =>
+    have ht := ih (fun x hx => h x (List.mem_cons_of_mem _ hx))
+    have ha : (a == sep) = false := by simpa using h a (List.mem_cons_self ..)
+    simp [splitOn, ht, ha]
+
+open VaxisModel.Model.Input in
+/-- `strings.Split` cuts at the first separator. -/
+theorem splitOn_sep_app (sep : Nat) (l rest : List Nat) (h : ∀ x ∈ l, x ≠ sep) :
+    splitOn sep (l ++ sep :: rest) = l :: splitOn sep rest := by
+  induction l with
+  | nil =>
+    obtain ⟨hd, tl, hs⟩ := splitOn_ne sep rest
+    simp [splitOn, hs]
+  | cons a t ih =>
+    have ht := ih (fun x hx => h x (List.mem_cons_of_mem _ hx))
+    have ha : (a == sep) = false := by simpa using h a (List.mem_cons_self ..)
+    simp [splitOn, ht, ha]
+
+/-- A string `hexNum` accepts consists of hexadecimal digits. -/
+theorem hexNum_all_hex (ds : List Nat) : ∀ acc v, hexNum ds acc = some v → ∀ d ∈ ds, (hexVal d).isSome = true := by
+  induction ds with
+  | nil => intro _ _ _ d hd; cases hd
+  | cons a t ih =>
+    intro acc v h d hd
+    unfold hexNum at h
+    cases ha : hexVal a with
+    | none => simp [ha] at h
+    | some x =>
+      simp only [ha] at h
+      rcases List.mem_cons.mp hd with rfl | hd
+      · simp [ha]
+      · exact ih _ _ h d hd
+
+/-- A hexadecimal digit is neither `/` nor `_`. -/
+theorem hex_ne_slash (d : Nat) (h : (hexVal d).isSome = true) : d ≠ 47 ∧ d ≠ 95 := by
+  have := hexVal_range d h; omega
+
+/-- The channel parser of the code is XParseColor's reading (the oracle written in round 3). -/
+theorem parseChannel_eq_xparse (ds : List Nat) : parseChannel ds = xparseChannel ds := by
+  unfold parseChannel xparseChannel
+  cases ds with
+  | nil => simp
+  | cons a t =>
+    by_cases h4 : 4 < t.length + 1
+    · simp [h4]
+    · by_cases hm : 95 = a ∨ 95 ∈ t
+      · have hnone : hexNum (a :: t) 0 = none := by
+          cases hn : hexNum (a :: t) 0 with
+          | none => rfl
+          | some v =>
+            have := hexNum_all_hex (a :: t) 0 v hn 95 (by simpa [eq_comm] using hm)
+            simp [hexVal] at this
+        simp [h4, hm, hnone]
+      · simp [h4, hm]
+
+/-- A channel value fits the `uint8` it is stored in. -/
+theorem parseChannel_lt (ds : List Nat) (v : Nat) (h : parseChannel ds = some v) : v < 256 := by
+  unfold parseChannel at h
+  split at h
+  · cases h
+  · rename_i hlen
+    cases hn : hexNum ds 0 with
+    | none => simp [hn] at h
+    | some x =>
+      simp only [hn, Option.map_some, Option.some.injEq] at h
+      subst h
+      have hlen1 : 1 ≤ ds.length := by
+        simp only [Bool.or_eq_true, decide_eq_true_eq, not_or, Nat.not_lt] at hlen; omega
+      have hpow : 16 ^ 1 ≤ 16 ^ ds.length := Nat.pow_le_pow_right (by decide) hlen1
+      have hx : x < 16 ^ ds.length := by
+        obtain ⟨w, hw, hb⟩ := hexNum_some ds 0 (hexNum_all_hex ds 0 x hn)
+        rw [hn] at hw; cases hw; simpa using hb
+      have hle : x ≤ 16 ^ ds.length - 1 := by omega
+      have hy : x * 65535 / (16 ^ ds.length - 1) ≤ 65535 := by
+        apply Nat.div_le_of_le_mul
+        rw [Nat.mul_comm x 65535, Nat.mul_comm (16 ^ ds.length - 1) 65535]
+        exact Nat.mul_le_mul_left _ hle
+      generalize x * 65535 / (16 ^ ds.length - 1) = y at hy
+      omega
+
 end VaxisModel.Lemmas.InputQuery
